@@ -132,8 +132,20 @@ pub fn get_next_chunk(ptr: usize,buf: &[u8]) -> (usize,u32,Option<Vec<u8>>) {
 /// Get the ordered physical track-sector list and sector size for any block
 fn get_ts_list(addr: Block,kind: &super::DiskKind) -> Result<(Vec<[usize;2]>,usize),DYNERR> {
 	match addr {
-		Block::D13([t,s]) => Ok((vec![[t,s]],256)),
-		Block::DO([t,s]) => Ok((vec![[t,skew::DOS_LSEC_TO_DOS_PSEC[s]]],256)),
+		Block::D13([t,s]) => {
+			if s>=13 {
+				debug!("sector {} out of bounds (13)",s);
+				return Err(Box::new(super::Error::SectorAccess));
+			}
+			Ok((vec![[t,s]],256))
+		},
+		Block::DO([t,s]) => {
+			if s>=16 {
+				debug!("sector {} out of bounds (16)",s);
+				return Err(Box::new(super::Error::SectorAccess));
+			}
+			Ok((vec![[t,skew::DOS_LSEC_TO_DOS_PSEC[s]]],256))
+		},
 		Block::PO(block) => {
 			let mut ans = skew::ts_from_prodos_block(block,kind)?;
 			match *kind {
@@ -239,6 +251,10 @@ pub fn cyl_head_to_track<T: WozUnifier>(woz: &T,cyl: usize,head: usize) -> Resul
 /// For 3.5 inch disks, the returned data has the tag bytes stripped.
 pub fn read_sector<T: WozUnifier>(woz: &mut T,cyl: usize,head: usize,sector: usize) -> Result<Vec<u8>,DYNERR> {
 	let track = cyl_head_to_track(woz,cyl,head)?;
+	if sector>u8::MAX as usize {
+		debug!("requested sector {}, max {}",sector,u8::MAX);
+		return Err(Box::new(super::Error::SectorAccess));
+	}
 	trace!("woz read track {} sector {}",track,sector);
 	let ans = woz.read_sector(track as u8,sector as u8)?;
 	if ans.len()==524 {
@@ -252,6 +268,10 @@ pub fn read_sector<T: WozUnifier>(woz: &mut T,cyl: usize,head: usize,sector: usi
 /// For 3.5 inch disks, tag bytes should not be included.
 pub fn write_sector<T: WozUnifier>(woz: &mut T,cyl: usize,head: usize,sector: usize,dat: &[u8]) -> STDRESULT {
 	let track = cyl_head_to_track(woz, cyl, head)?;
+	if sector>u8::MAX as usize {
+		debug!("requested sector {}, max {}",sector,u8::MAX);
+		return Err(Box::new(super::Error::SectorAccess));
+	}
 	let padded = match woz.kind() {
 		super::names::A2_400_KIND | super::names::A2_800_KIND => {
 			let mut tagged: Vec<u8> = vec![0;12];
